@@ -67,6 +67,9 @@ func initSpecDirs() {
 	cdi.SetSpecValidator(schema.WithSchema(s))
 
 	if len(specDirs) > 0 {
+		// all commands use the default cache, make it use the given directories
+		_ = cdi.Configure(cdi.WithSpecDirs(specDirs...))
+
 		cache, err := cdi.NewCache(
 			cdi.WithSpecDirs(specDirs...),
 		)
